@@ -27,7 +27,7 @@ static Built build(Rng& r, const GenCfg& cfg, int rows, int cols) {
   b.args = new Array<const ExprSymbol>(ns); b.nvar = 0;
   for (int i = 0; i < ns; i++) {
     Dim d = Dim::scalar();
-    if (cfg.allow_vec) switch (r.below(6)) { case 0: d = Dim::col_vec(r.range(2, 3)); break; case 1: d = Dim::row_vec(r.range(2, 3)); break; case 2: d = Dim::matrix(r.range(2, 3), r.range(2, 3)); break; default: break; }
+    if (cfg.allow_vec) switch (r.below(7)) { case 0: d = Dim::col_vec(r.range(2, 3)); break; case 1: d = Dim::row_vec(r.range(2, 3)); break; case 2: d = Dim::matrix(r.range(2, 3), r.range(2, 3)); break; case 3: d = Dim::matrix(2, r.range(3, 4)); break; default: break; }
     const ExprSymbol& s = ExprSymbol::new_(("x" + to_string(i)).c_str(), d);
     b.args->set_ref(i, s); g.syms.push_back(&s); b.nvar += d.size();
   }
@@ -86,7 +86,7 @@ int main(int argc, char** argv) {
     for (long it = 0; it < n; it++) {
       GenCfg cfg; cfg.max_depth = r.range(1, 4); cfg.thick_consts = false; cfg.allow_vec = r.coin(70); cfg.allow_apply = r.coin(50); cfg.allow_sqrt = r.coin(40);
       int rows = 1, cols = 1;
-      if (cfg.allow_vec) switch (r.below(5)) { case 0: rows = r.range(2, 3); break; case 1: cols = r.range(2, 3); break; case 2: rows = r.range(2, 3); cols = r.range(2, 3); break; default: break; }
+      if (cfg.allow_vec) switch (r.below(6)) { case 0: rows = r.range(2, 4); break; case 1: cols = r.range(2, 4); break; case 2: rows = r.range(2, 3); cols = r.range(2, 3); break; case 3: rows = r.range(2, 3); cols = r.range(3, 5); break; default: break; }
       Built b;
       try { b = build(r, cfg, rows, cols); } catch (std::exception& e) { EMIT("builderror %s => 0\n", e.what()); continue; }
       Function& f = *b.f;
